@@ -165,3 +165,29 @@ Example range_example :
   get_range [] None None = Some [] /\
   list_ids [4; 9; 2; 7; 5]%N (Some 9%N) None true = Some [5; 7; 2; 9]%N.
 Proof. vm_compute. repeat split. Qed.
+
+(* ---------- log order is causal order ---------- *)
+(* an entry with a smaller Lamport clock comes first in the log order; a child's clock exceeds that of
+   every ancestor, so ancestors are listed before their descendants *)
+Lemma sorted_clock_order l :
+  Sorted.StronglySorted ele l ->
+  forall i j a b, nth_error l i = Some a -> nth_error l j = Some b -> (e_clock a < e_clock b)%N -> i < j.
+Proof.
+  intros H. induction H as [|x l Hs IH Hall]; intros i j a b Ha Hb Hlt.
+  - destruct i; discriminate.
+  - destruct i as [|i], j as [|j]; cbn in Ha, Hb.
+    + inversion Ha; inversion Hb; subst. lia.
+    + lia.
+    + (* b is the head, a in the tail: head <= a contradicts clock a < clock b *)
+      inversion Hb; subst b. exfalso.
+      rewrite Forall_forall in Hall. pose proof (Hall a (nth_error_In _ _ Ha)) as Hle.
+      unfold ele, eleb in Hle. apply orb_true_iff in Hle. destruct Hle as [Hle|Hle].
+      * apply N.ltb_lt in Hle. lia.
+      * apply andb_true_iff in Hle. destruct Hle as [Hle _]. apply N.eqb_eq in Hle. lia.
+    + apply -> Nat.succ_lt_mono. eapply IH; eassumption.
+Qed.
+
+Lemma listing_respects_causality es i j a b :
+  nth_error (sort_entries es) i = Some a -> nth_error (sort_entries es) j = Some b ->
+  (e_clock a < e_clock b)%N -> i < j.
+Proof. apply sorted_clock_order. apply sort_sorted. Qed.
